@@ -361,7 +361,7 @@ example : String.ofList (renderFloat true [1] (some [5]) (some (true, [0,7]))) =
 -- repr(0.1) = "0.1" rounds to the bits of 0.1 and not to those of its neighbour; 5e-324 and the largest double
 example : ReprFaithful (.finite false [0] (some [1]) none) 4591870180066957722 ∧
     ¬ ReprFaithful (.finite false [0] (some [1]) none) 4591870180066957723 := by decide
-example : ReprFaithful (.finite false [5] none (some (true, [3,2,4]))) 1 := by decide
+example : ReprFaithful (.finite false [5] none (some (true, [3,2,4]))) 1 := by decide +kernel
 example : cppFloat "-1.5e-07" = some ({ neg := true, mant := 15, exp := -8 }, .double) := by decide
 example : cppFloat "100" = none ∧ cppInt "1e5" = none := by decide
 example : PlainName "AntiKt4EMTopoJets".toList ∧ PlainName "jet pt [GeV]".toList := by decide
